@@ -20,6 +20,24 @@ pub fn cases(ctx: &Ctx) -> Vec<WCase> {
         let mut rr = r.fork(0x2000_0000 + i as u64);
         out.push(wcase(format!("death2-{i}"), gen_death2(&mut rr, 400)));
     }
+    // a live peer is dropped by the application: its packets keep arriving after the drop (the endpoint goes on decoding
+    // them for a while), some of them for frames the survivor has not reached yet
+    for i in 0..ctx.n(2000, 100_000) {
+        let mut rr = r.fork(0x3000_0000 + i as u64);
+        let mut s = gen_death2(&mut rr, 400);
+        s.kill = None;
+        s.notify_ms = 20_000;
+        s.timeout_ms = 30_000;
+        let h = s.peers[1][0];
+        s.actions.push(crate::scn::Action { node: 0, when: crate::scn::Trigger::AtMs(rr.range(1500, 3500)), act: crate::scn::Act::Disconnect { h } });
+        // the dropped peer runs a little faster than the survivor in half of the cases (it is then ahead of it)
+        let mut fast = crate::scn::NodeCfg::default();
+        fast.skew = rr.pick(&[0.0, -0.03, -0.08]);
+        let mut c0 = crate::scn::NodeCfg::default();
+        c0.polls_per_tick = rr.pick(&[1u64, 2, 4]);
+        s.nodes = vec![c0, fast];
+        out.push(wcase(format!("apidrop-{i}"), s));
+    }
     out
 }
 
@@ -29,7 +47,7 @@ pub fn run_case(c: &WCase) -> Outcome {
         out.count("predicted_although_frame_already_received", w.obs.predicted_though_received);
         out.count("rechecks_of_frames_below_confirmed", w.obs.final_rechecks);
         let b = &w.obs;
-        let death = w.scn.kill.is_some();
+        let death = w.scn.kill.is_some() || c.id.starts_with("apidrop");
         out.nontrivial = b.status_confirmed > 0 && b.status_predicted > 0 && b.predicted_wrong > 0 && (b.predicted_right > 0 || w.scn.sticky == 1) && (!death || b.status_disconnected > 0);
         if death && b.status_disconnected > 0 {
             out.count("runs_with_disconnected_status", 1);
@@ -46,7 +64,7 @@ pub fn check(ctx: &Ctx) -> i32 {
     let res = par_run(ctx, &cs, &|c: &WCase| c.id.clone(), &run_case);
     let meta = Meta {
         level: "exploration",
-        rule: "random scenarios of C01's space with held inputs (sticky 1/3/10) and two-peer peer-death scenarios, both predictors. For every (input,status) pair of every AdvanceFrame (first simulations and re-simulations) the connection-status hook is sampled after the call: local => Confirmed and the submitted value; Confirmed => the frame had been received and the value is the truth; Predicted => predictor(newest received real input) or default if none; Disconnected => default value, player disconnected, cut-off before the frame. Frames at or below a previously observed confirmed_frame() must be re-simulated with identical inputs; confirmed_frame() must never decrease. Non-trivial: Confirmed and Predicted both seen, >=1 wrong and (for held inputs) >=1 right prediction, and in death scenarios >=1 Disconnected status. Distinct: configuration bucket + trace hash.".into(),
+        rule: "random scenarios of C01's space with held inputs (sticky 1/3/10) and two-peer peer-death scenarios (the peer dies, or a live peer is dropped with disconnect_player and keeps sending), both predictors. For every (input,status) pair of every AdvanceFrame (first simulations and re-simulations) the connection-status hook is sampled after the call: local => Confirmed and the submitted value; Confirmed => the frame had been received and the value is the truth; Predicted => predictor(newest received real input) or default if none; Disconnected => default value, player disconnected, cut-off before the frame. Frames at or below a previously observed confirmed_frame() must be re-simulated with identical inputs; confirmed_frame() must never decrease. Non-trivial: Confirmed and Predicted both seen, >=1 wrong and (for held inputs) >=1 right prediction, and in death scenarios >=1 Disconnected status. Distinct: configuration bucket + trace hash.".into(),
         assumptions: std_assumptions(),
         floor_nontrivial: if ctx.quick() { 200 } else { 5000 },
         exhaustive: None,
